@@ -1,18 +1,18 @@
 """C20 — malformed length fields from the network cannot crash or balloon the client."""
-import os, sys
+import os, sys, struct
 sys.path.insert(0, os.path.join(os.path.dirname(os.path.dirname(os.path.abspath(__file__))), "lib"))
 import codec
 
 META = {
     "property_id": "C20",
     "engine": "lean-wire-codec",
-    "technique": "Lean 4: totality + allocation-bound theorem for the model of the reflection decoder on ARBITRARY bytes (outcomes ok/error/panic/balloon), by mutual induction over all schema types incl. tagged fields; the 'lengths are checked against decoder.remain before allocating' fact is re-extracted from decode.go/response.go/request.go on every run and the theorem is instantiated at it; counterexample theorems for the unchecked decoder; model<->code correspondence of the outcome class on systematically mutated frames decoded in a memory-limited child process",
+    "technique": "Lean 4: totality + allocation-bound theorem for the model of the reflection decoder on ARBITRARY bytes (outcomes ok/error/panic/balloon), by mutual induction over all schema types incl. tagged fields, extended by a model of RecordSet.ReadFrom / readFromVersion1 / readFromVersion2 (nested remains, message sizes, batchLength, numRecords, record/key/value/header varints) plugged into the frame decoder; the 'lengths are checked against decoder.remain before allocating' facts (G1-G5 in decode.go/response.go/request.go, 7 record-set guards in record*.go) are re-extracted on every run and the theorems are instantiated at them; exact-frame-accounting theorem (one frame consumed whatever the fields say); counterexample theorems for the unchecked decoder; model<->code correspondence of the outcome class on systematically mutated frames decoded in a memory-limited child process",
     "level_claimed": {
         "category": "proof",
-        "text": "Kernel-checked: for every schema type, every input byte string and every frame size, ReadResponse/decode of the bounded decoder returns a message or an error - no panic outcome and no allocation request larger than the bytes left in the frame (decode_total_bounded, readResponse_total_bounded), instantiated at the decoder configuration extracted from the current source. Tied to the code by the extracted guard facts and by decoding ~20k (quick) mutated frames of every response type x version in a child process (ulimit -v, GOMEMLIMIT, timeout) and comparing the outcome class and measured allocation with the model.",
+        "text": "Kernel-checked: for every schema type, every input byte string and every frame size, ReadResponse/decode of the bounded decoder returns a message or an error - no panic outcome and no allocation request beyond the bytes left in the frame nor more than a constant ahead of the bytes actually received (decode_total_bounded, readResponse_total_bounded, readRequest_total_bounded, readResponse_total_with_records, readResponse_consumes_frame_with_records), instantiated at the decoder configuration extracted from the current source. Tied to the code by the extracted guard facts and by decoding ~20k (quick) mutated frames of every response type x version in a child process (ulimit -v, GOMEMLIMIT, timeout) and comparing the outcome class and measured allocation with the model.",
         "design_ref": "DESIGN.md §7 C20",
     },
-    "level_note": "Trusted: Lean kernel + standard axioms; the syntactic guard extractor (go/ast patterns G1-G5); the child-process harness. The bound is in terms of the bytes ANNOUNCED by the frame size and not yet consumed (= bytes received when the frame is complete); a frame whose size prefix itself lies can still request up to that size. RecordSet payload internals (record_v1/v2 lengths) are outside this model (C05/C17). CPU time is not modelled (sticky-error short-circuit); hangs are observed by the harness only.",
+    "level_note": "Trusted: Lean kernel + standard axioms; the syntactic guard extractors (go/ast patterns G1-G5, 7 record-set guard patterns); the child-process harness. The model distinguishes `remain` (bytes the size prefix ANNOUNCES) from `inp` (bytes the connection really delivers): a decoder that checks every length against `remain` but allocates the announced amount upfront is `balloon` in the model (Cfg.growing = false; counterexamples lying_count_/lying_length_counterexample = C20-D30/D33), the safety theorems need Guarded = bounded (G1-G5) AND growing (G8 arrays, G9 strings/bytes), both re-extracted; allocation constants (1024 elements / 64 KiB ahead of the data) are the model's abstraction of arrayChunk / readChunk. Decompression and CRC are parameters of the record-set model (any function): what a codec allocates while inflating is C16's. CPU time is not modelled (sticky-error short-circuit); hangs are observed by the harness only.",
 }
 
 MODULE = "KafkaVerif.Props.C20"
@@ -22,7 +22,7 @@ def run(ctx, variants=(("verif", "c04"), ("verif,unsafe", "c04u"))):
     ctx.assumptions += [
         "allocation bound: every make()/makeArray request <= decoder.remain at that moment (c = 1 element or byte per remaining frame byte, k = 0); a Go element is at most a constant number of bytes per schema (harness threshold 256 B per frame byte + 1 MiB)",
         "remain is the announced frame size minus what was consumed: equals bytes received when the frame is complete",
-        "RecordSet payload insides are opaque (C05/C17)",
+        "CRC and decompression are arbitrary functions in the record-set model (theorems hold for all of them); the oracle runs with the real CRCs and no decompressor (generated cases are uncompressed)",
         "after the first decoder error nothing more is allocated (sticky error: every later read returns 0) - modelled by short-circuit, sampled by the correspondence",
     ]
     broken = []
@@ -96,6 +96,22 @@ def run(ctx, variants=(("verif", "c04"), ("verif,unsafe", "c04u"))):
             broken.append({"kind": "obligation", "name": "lens: %d well-formed frames could not be walked" % nofields, "detail": ""})
         ctx.coverage["length_fields_mutated"] = ctx.coverage.get("length_fields_mutated", 0) + nfields
         ctx.coverage["v0_message_set_frames"] = len(v0)
+        # (a4) exactly ONE frame must be consumed: every case below is followed on the same connection by a second,
+        #      clean frame of the same type (correlation id 9) and both are decoded with one bufio.Reader:
+        #      honest frames whose record set has a stump / unknown-magic tail after its last batch; frames whose size
+        #      prefix ends the frame right after a length field; and the well-formed frames themselves
+        npipe = 0
+        for f, raw, fields in parsed + parsed0:
+            second = bytearray(raw); second[4:8] = b"\x00\x00\x00\x09"
+            firsts = [raw] + [b for _, b in codec.record_set_tails(raw, fields)]
+            if any(x["crc"] for x in fields) or ctx.tier == "thorough" or len(raw) <= 120:
+                firsts += codec.frame_ends_after(raw, fields)
+            for b in firsts:
+                cases.append("P%s %s %s.%s" % (f[0], f[1], b.hex(), bytes(second).hex()))
+                npipe += 1
+            for b in codec.tag_marker_recursion(raw, fields):
+                cases.append("%s %s %s" % (f[0], f[1], b.hex()))
+        ctx.coverage["pipelined_two_frame_cases"] = ctx.coverage.get("pipelined_two_frame_cases", 0) + npipe
         # (a'') the un-framed SASL token exchange on the Transport path (handshake v0): its only length field
         for h in ["0000000401020304", "00000000", "ffffffff", "80000000", "7fffffff0102", "fffffffe", "0000000501020304", "000000", "7ffffff0", "00010000" + "00" * 16]:
             cases.append("sasl 0 %s" % h)
@@ -113,6 +129,36 @@ def run(ctx, variants=(("verif", "c04"), ("verif,unsafe", "c04u"))):
                 lying.append("%s %s %s" % (f[0], f[1], bytes(b[:o + 4]).hex()))
         cases += lying[:2]
         lying_all |= set(c.split(" ")[2] for c in lying[:2])
+        # (a3') the same with EVERY top-level int32 / compact length or count field of every response type x version (strings,
+        #       bytes, arrays, tagged-field sizes): size prefix 2^31-1, the field set to 0x7f000000 (within the announced rest),
+        #       the frame cut right after the field and 3 bytes later.  Only ~20 bytes were received: error, no allocation
+        nly = 0
+        for f, raw, fields in parsed:
+            top = [x for x in fields if x["kind"] in ("i32", "uv") and x["off"] >= 8 and not x["crc"] and len(x["encl"]) == 1]
+            if ctx.tier != "thorough":
+                top = top[:4]
+            for x in top:
+                o, w = x["off"], x["width"]
+                huge = bytes.fromhex("7f000000") if x["kind"] == "i32" else codec.enc_uv(0x7f000000)
+                b = bytearray(raw[:o]) + huge
+                b[0:4] = bytes.fromhex("7fffffff")
+                for tail in (b"", b"\x01\x02\x03"):
+                    cases.append("%s %s %s" % (f[0], f[1], (bytes(b) + tail).hex()))
+                    nly += 1
+            # … and INSIDE record sets: every enclosing length (frame, record-set size, batch length / message size) lies
+            #     consistently (each inside the one around it) and the field itself is huge; cut after the field
+            deep = [x for x in fields if x["kind"] in ("i32", "uv", "zv") and x["off"] >= 8 and len(x["encl"]) > 1]
+            if ctx.tier != "thorough":
+                deep = deep[:6]
+            for x in deep:
+                o = x["off"]
+                huge = {"i32": bytes.fromhex("60000000"), "uv": codec.enc_uv(0x60000000), "zv": codec.enc_zv(0x60000000)}[x["kind"]]
+                b = bytearray(raw[:o]) + huge + b"\x01\x02"
+                for lvl, e in enumerate(sorted(x["encl"])):
+                    b[e:e + 4] = struct.pack(">i", 0x7fffffff - lvl * 0x04000000)
+                cases.append("%s %s %s" % (f[0], f[1], bytes(b).hex()))
+                nly += 1
+        ctx.coverage["lying_size_and_length_cases"] = ctx.coverage.get("lying_size_and_length_cases", 0) + nly
         # (b) extra: blind overwrites at random offsets
         gen, rc, err = ctx.run_driver(drv, ["-malgen"])
         if rc != 0:
@@ -120,8 +166,8 @@ def run(ctx, variants=(("verif", "c04"), ("verif,unsafe", "c04u"))):
             continue
         cases += [l for l in gen if l.strip()]
         cases = list(dict.fromkeys(cases))
-        if n > 0 and ctx.tier != "thorough":
-            cases = cases[::4]          # the unsafe build shares decode.go; sample it in the quick tier
+        if n > 0:
+            cases = cases[::4] if ctx.tier != "thorough" else cases[::2]   # the unsafe build shares decode.go; sampled
         path = os.path.join(os.path.dirname(drv), "c20-cases-%s-%d.txt" % (name, ctx.seed))
         with open(path, "w") as f:
             f.write("\n".join(cases) + "\n")
@@ -134,7 +180,9 @@ def run(ctx, variants=(("verif", "c04"), ("verif,unsafe", "c04u"))):
         dis += ctx.correspond(got, orc, "ReadResponse on mutated frames (%s) <-> Model/Codec.lean readResponse" % tags)
         if any(d.get("kind") == "disagreement" and not d["holds_on_impl"] and d["op"].split(" ")[-1] not in lying_all for d in dis):
             break                       # failing inputs found: no need to spend the budget on the other build variant
-    ctx.coverage["rule"] = ("TRUNCATED STREAM: every well-formed response frame (Fetch with magic 0/1/2 record sets included) cut at every offset with "
+    ctx.coverage["rule"] = ("PIPELINED: two frames back to back on one connection (first: well-formed / record set with a stump of 1,5,16 bytes or an unknown-magic batch "
+                            "after its last batch, sizes honest / frame size ending the frame right after each length field; second: clean frame) - the second must decode to its own "
+                            "correlation id whenever the first decodes. TAG MARKER: tag id 2^64-1 (the `_ struct{}` marker's map key) with nested tag buffers. TRUNCATED STREAM: every well-formed response frame (Fetch with magic 0/1/2 record sets included) cut at every offset with "
                             "all announced sizes left consistent - outcome must be an error. DETERMINISTIC: every response type x version (Fetch: one frame per message-set format magic 0/1/2 with 3 records, keys, a header): "
                             "EVERY length/count field (frame size, string/bytes/array prefixes fixed and compact, tag-buffer counts, record-set size, message size, "
                             "batchLength, numRecords, v0/v1 key/value lengths, v2 record/key/value/header varints; positions computed from the schema by the oracle) x "
